@@ -79,7 +79,13 @@ fn lsp_part(rules_yaml: &str, file: &str, text: &str) -> Value {
   sim.deliver(req);
   sim.settle();
   let fix_all = sim.responses.last().cloned().unwrap_or(Value::Null);
-  json!({"published": true, "version": version, "diagnostics": diags, "quickfix_response": quick, "fixall_response": fix_all})
+  // the same fixes through the command the editor extension uses: the server answers with a
+  // workspace/applyEdit request to the client
+  let req = sim.request("workspace/executeCommand", json!({"command": "ast-grep.applyAllFixes", "arguments": [{"uri": uri, "languageId": "x", "version": 1, "text": text}]}));
+  sim.deliver(req);
+  sim.settle();
+  let applied = sim.applied_edits.clone();
+  json!({"published": true, "version": version, "diagnostics": diags, "quickfix_response": quick, "fixall_response": fix_all, "apply_all_fixes_edits": applied})
 }
 
 fn main() {
